@@ -70,6 +70,34 @@ theorem iptw_bounded_spec (stab : Bool) (t : Tgt) (a : Bool) (n d lo hi : F) (h 
   · intro h1 h2; unfold Bounds.clip1; dsimp only
     rw [if_neg (not_lt.mpr h1), if_neg (not_lt.mpr h2)]
 
+/-- **the limits are entries 0 and 1 of the collection handed over as `bound`, whatever follows them, and a limit of
+    exactly 0 (or 1) is a limit**: for a collection `lo :: hi :: rest` with `0 ≤ lo ≤ hi ≤ 1` that Python does not treat
+    as false (`falsy = false`: any non-empty list / tuple, also one that *contains* a 0), `if bound:` +
+    `probability_bounds` apply the interval `(lo, hi)` — `rest` does not enter — so the weight is the documented formula
+    at the probabilities clipped to `[lo, hi]`; with `lo = 0` this is one-sided truncation from above (probabilities
+    not above `hi` are left alone), with `hi = 1` from below.  Only an object that is itself false (the default `False`,
+    `0.0`) switches truncation off. -/
+theorem iptw_bound_collection_spec (stab : Bool) (t : Tgt) (a : Bool) (n d lo hi : F) (rest : List (Option F))
+    (h0 : 0 ≤ lo) (h : lo ≤ hi) (h1 : hi ≤ 1) :
+    Bounds.estimatorBound false (.seq (some lo :: some hi :: rest)) = .ok (some (lo, hi)) ∧
+    Ipw.iptwRow stab t.str (some (lo, hi)) a n d
+      = docWeight stab t a (Bounds.clip1 lo hi n) (Bounds.clip1 lo hi d) ∧
+    Ipw.outcomeIpmw stab (some (lo, hi)) true n d = some ((if stab then n else 1) / Bounds.clip1 lo hi d) ∧
+    (lo = 0 → 0 ≤ d → Bounds.clip1 lo hi d = if hi < d then hi else d) ∧
+    (hi = 1 → d ≤ 1 → Bounds.clip1 lo hi d = if d < lo then lo else d) ∧
+    (∀ s : Bounds.BoundSpec F, Bounds.estimatorBound true s = .ok none) := by
+  have ha : ¬ lo > hi := not_lt.mpr h
+  have hb : ¬ (lo < 0 ∨ hi > 1) := by simp only [not_or, not_lt]; exact ⟨h0, h1⟩
+  refine ⟨by simp [Bounds.estimatorBound, Bounds.parseBound, ha, hb],
+    (iptw_bounded_spec stab t a n d lo hi h).1, by simp [Ipw.outcomeIpmw, Ipw.bounded], ?_, ?_,
+    by intro s; simp [Bounds.estimatorBound]⟩
+  · intro hl hd; subst hl; unfold Bounds.clip1; dsimp only
+    rw [if_neg (not_lt.mpr hd)]
+  · intro hh hd; subst hh; unfold Bounds.clip1; dsimp only
+    by_cases c : d < lo
+    · simp only [if_pos c]; exact if_neg (not_lt.mpr h)
+    · simp only [if_neg c]; exact if_neg (not_lt.mpr hd)
+
 /-- `IPTW.missing_model`: rows with an observed outcome get `Pr(observed | numerator) / Pr(observed | A, L)`
     (`1 / …` unstabilized; denominator clipped when `bound` is given), rows with a missing outcome get none -/
 theorem outcome_ipmw_spec (stab : Bool) (b : Option (F × F)) (n d : F) :
@@ -472,6 +500,19 @@ example : (1/4 : ℚ) ≠ 0 ∧ (1/4 : ℚ) ≠ 1 := by norm_num
 example : Ipw.iptwRow false "population" (some ((1/5 : ℚ), 4/5)) true 1 (1/10) = 5 := by
   rw [show "population" = Tgt.pop.str from rfl, (iptw_bounded_spec false Tgt.pop true 1 (1/10) (1/5) (4/5) (by norm_num)).1]
   norm_num [docWeight, prOf, Bounds.clip1]
+
+-- a collection with more than two entries, the third below the first: the limits are 1/5 and 3/5 (7/10 is clipped to 3/5)
+example : Bounds.estimatorBound false (.seq [some (1/5 : ℚ), some (3/5), some (1/10)]) = .ok (some (1/5, 3/5)) ∧
+    Ipw.iptwRow false "population" (some ((1/5 : ℚ), 3/5)) true 1 (7/10) = 5/3 := by
+  refine ⟨(iptw_bound_collection_spec false Tgt.pop true 1 (7/10) (1/5) (3/5) [some (1/10)]
+    (by norm_num) (by norm_num) (by norm_num)).1, ?_⟩
+  rw [show "population" = Tgt.pop.str from rfl, (iptw_bounded_spec false Tgt.pop true 1 (7/10) (1/5) (3/5) (by norm_num)).1]
+  norm_num [docWeight, prOf, Bounds.clip1]
+-- a lower limit of exactly 0: truncation from above only (9/10 becomes 3/4, 1/10 stays)
+example : Bounds.estimatorBound false (.seq [some (0 : ℚ), some (3/4)]) = .ok (some (0, 3/4)) ∧
+    Bounds.clip1 (0 : ℚ) (3/4) (9/10) = 3/4 ∧ Bounds.clip1 (0 : ℚ) (3/4) (1/10) = 1/10 := by
+  refine ⟨(iptw_bound_collection_spec false Tgt.pop true 1 (9/10) 0 (3/4) [] (by norm_num) (by norm_num) (by norm_num)).1, ?_, ?_⟩ <;>
+    norm_num [Bounds.clip1]
 
 /-- two exclusive exhaustive conditions (even / odd row id) -/
 def exConds : List (Stoch.Cond ℚ) := [⟨fun i => i % 2 == 0, 1/4⟩, ⟨fun i => i % 2 == 1, 3/4⟩]
